@@ -126,8 +126,6 @@ def run(ck: vlib.Check):
             for kind in (0, 1, 2):
                 if kind == 2 and name not in PARTIAL_OK:
                     continue
-                if kind == 1 and name == "temp-create":
-                    continue
                 jobs.append(dict(c, step=i, kind=kind, prim=name))
     results = run_jobs(jobs)
     ck.exhaustive = True
